@@ -11,7 +11,7 @@ import (
 func init() {
 	Registry["C05"] = RuleDef{Module: ".", Run: runC05,
 		Technique:   "dominance (context test before any write), guard rule on every blocking wait in context-carrying functions, monitor rule for the pool's cancellation wake-up, guard table of the back-off",
-		Explanation: "Decides (R05a) that in pipe.Do/DoMulti/DoStream/DoMultiStream a ctx.Err() test whose non-nil arm returns dominates every enqueue, synchronous send and write, so a call whose context is already done sends nothing; (R05b) that in every function of the client that carries a context, each blocking channel receive is either a select with a ctx.Done() case or sits under the `ctx.Done() == nil` arm, and each condition-variable wait has a loop predicate containing ctx.Err() together with a cancellation broadcaster that obeys the monitor rule; (R05c) that the synchronous paths set a connection deadline derived from the context's deadline before writing, and map a deadline error back to context.DeadlineExceeded only when the context's own deadline was used; (R05d) the back-off decision table of WaitOrSkipRetry/WaitForRetry (no wait beyond the deadline, wait is cancellable).",
+		Explanation: "Decides (R05a) that in pipe.Do/DoMulti/DoStream/DoMultiStream a ctx.Err() test whose non-nil arm returns dominates every enqueue, synchronous send and write, so a call whose context is already done sends nothing; (R05b) that in every function of the client that carries a context, each blocking channel receive is either a select with a ctx.Done() case or sits under the `ctx.Done() == nil` arm, and each condition-variable wait has a loop predicate containing ctx.Err() together with a cancellation broadcaster that obeys the monitor rule; (R05c) that the synchronous paths set a connection deadline derived from the context's deadline before writing, and map a deadline error back to context.DeadlineExceeded only when the context's own deadline was used; (R05d) the back-off decision table of WaitOrSkipRetry/WaitForRetry (no wait beyond the deadline, wait is cancellable). (R05e) a failed wait on another caller's cache flight is never retried without re-examining the waiter's own context (it would spin until the flight resolves).",
 		NotDecided:  "timing (\"shortly after\"), deadline honouring inside the OS read, the ring queue's Put (a known finding: it has no cancellation path)."}
 }
 
@@ -25,6 +25,7 @@ func ctxDoneOrigin(v ssa.Value) bool {
 }
 
 func runC05(r *Report) {
+	waitNotRetriedRule(r)
 	p := r.P
 	// R05a
 	sendish := []string{"iface:rueidis.queue.PutOne", "iface:rueidis.queue.PutMulti", "rueidis.(*pipe).syncDo", "rueidis.(*pipe).syncDoMulti", "rueidis.writeCmd", "rueidis.flushCmd", "bufio.(*Writer).Flush"}
@@ -241,4 +242,56 @@ func runC05(r *Report) {
 		}
 		r.Anchor("R05d", "select in WaitForRetry", n >= 1)
 	}
+}
+
+// waitNotRetriedRule (R05e): a wait on another caller's cache flight returns the waiter's own
+// context error when its context ends; an arm on which that error is known to be non-nil must not
+// lead back to the same wait (the context is still done: the call would spin instead of returning)
+// unless it re-examines its own context first.
+func waitNotRetriedRule(r *Report) {
+	n := 0
+	for _, fn := range r.P.ModuleFuncs() {
+		if !strings.HasPrefix(FuncName(fn), "rueidis.") {
+			continue
+		}
+		for _, s := range Sites(fn, func(in ssa.Instruction) bool {
+			c, ok := in.(*ssa.Call)
+			return ok && CalleeName(c) == "iface:rueidis.CacheEntry.Wait"
+		}) {
+			n++
+			errv := extractOf(s.Instr.(*ssa.Call), 1)
+			ok := true
+			if errv != nil {
+				for _, b := range fn.Blocks {
+					iff, isif := b.Instrs[len(b.Instrs)-1].(*ssa.If)
+					if !isif || len(b.Succs) != 2 {
+						continue
+					}
+					for succ := 0; succ < 2; succ++ {
+						x, op, y, cok := CmpGuard(normGuard(Guard{iff.Cond, succ == 0, b}))
+						if !cok || (x != errv && y != errv) {
+							continue
+						}
+						other := y
+						if y == errv {
+							other = x
+						}
+						nonNil := op == token.NEQ && IsNilConst(other) || op == token.EQL && !IsNilConst(other)
+						if !nonNil {
+							continue
+						}
+						hit, _ := Reaches(Site{fn, b.Succs[succ], -1, nil}, func(w Site) bool { return w.Instr == s.Instr }, func(w Site) bool {
+							c, isc := w.Instr.(ssa.CallInstruction)
+							return isc && CalleeName(c) == "iface:context.Context.Err"
+						})
+						if hit {
+							ok = false
+						}
+					}
+				}
+			}
+			r.ObSite("R05e", s, "failed-wait-is-not-retried", ok, "after a flight wait reported an error (possibly the waiter's own context error) the call does not go back to the same wait without re-examining its context")
+		}
+	}
+	r.Anchor("R05e", "cache flight waits (>= 3)", n >= 3)
 }
